@@ -28,17 +28,17 @@ Proof. exists "../outside". eexists. split; [|split]; vm_compute; reflexivity. Q
 (* put into such a run: the pre-existing file outside the root was overwritten and removed by the rollback *)
 Lemma outside_put_refuted_without_fix_p :
   exists run s', fget (fs st0) sent0 = Some 2%N
-    /\ step_v false false st0 (Put 1 (fmt run) ".yaml" 9) = (s', Refused RuntimeErr)
+    /\ step_v false false false st0 (Put 1 (fmt run) ".yaml" 9) = (s', Refused RuntimeErr)
     /\ fget (fs s') sent0 = None /\ inside sent0 = false.
 Proof. exists "%2E%2E/sentinel". eexists. conj; vm_compute; reflexivity. Qed.
 
 (* ingest(copy) into such a run SUCCEEDED: a file outside the root was overwritten; pruning the dataset removed it *)
 Lemma outside_ingest_refuted_without_fix_p :
   exists run s1,
-    step_v false false st0 (Ingest Copy [1%N] (fmt run) ".yaml" stage0) = (s1, Done)
+    step_v false false false st0 (Ingest Copy [1%N] (fmt run) ".yaml" stage0) = (s1, Done)
     /\ fget (fs st0) sent0 = Some 2%N /\ fget (fs s1) sent0 = Some 1%N
     /\ recs_inside s1 = false
-    /\ fget (fs (fst (step_v false false s1 (Prune [1%N])))) sent0 = None.
+    /\ fget (fs (fst (step_v false false false s1 (Prune [1%N])))) sent0 = None.
 Proof. exists "%2E%2E/sentinel". eexists. conj; vm_compute; reflexivity. Qed.
 
 (* ---- with df0ecd0: a text whose RESOLVED location is not under the root is refused before anything happens ------ *)
@@ -53,8 +53,9 @@ Lemma unchecked_ingest_refused_p : forall s m ids p ext src,
   inside (rel_loc (stage_a p)) = false ->
   fst (step s (Ingest m ids (FOk p) ext src)) = s /\ snd (step s (Ingest m ids (FOk p) ext src)) <> Done.
 Proof.
-  intros s m ids p ext src H. unfold step, step_v, refuse_location, checked. rewrite H. simpl.
-  rewrite orb_true_r. destruct (fget (fs s) src); simpl; split; try reflexivity; discriminate.
+  intros s m ids p ext src H. unfold step, step_v, refuse_location, checked. rewrite H. simpl negb.
+  rewrite orb_true_r.
+  destruct (held_any s ids); destruct (fget (fs s) src); cbn [andb fst snd]; split; try reflexivity; discriminate.
 Qed.
 
 (* the four spellings of the repaired defect are refused for put and ingest, the outside file keeps its content *)
@@ -158,12 +159,13 @@ Lemma alias_refuted_p :
     /\ referenced (fst (step s (Prune [2%N]))) l = true /\ inside l = true.
 Proof. eexists. exists ["aJb"; "dtD"; "dtD_Cam_det0_aJb.yaml"]. eexists. conj; vm_compute; reflexivity. Qed.
 
-(* a refused re-ingest removes the artifact of the dataset the datastore holds *)
+(* REPAIRED by 2da36a1.  Before it (step_noichk): a refused re-ingest removed the artifact of the dataset the datastore holds *)
+Definition step_noichk : state -> op -> state * outcome := step_v true true false.
 Lemma reingest_refuted_p :
   exists s x l c,
     s = run st0 [Ingest Copy [1%N] (fmt "r1") ".yaml" stage0]
-    /\ reingest s x = true /\ snd (step s x) = Refused Conflict
-    /\ fget (fs s) l = Some c /\ fget (fs (fst (step s x))) l = None /\ referenced (fst (step s x)) l = true.
+    /\ reingest s x = true /\ snd (step_noichk s x) = Refused Conflict
+    /\ fget (fs s) l = Some c /\ fget (fs (fst (step_noichk s x))) l = None /\ referenced (fst (step_noichk s x)) l = true.
 Proof.
   eexists. exists (Ingest Copy [1%N] (fmt "r1") ".yaml" stage0), ["r1"; "dtD"; "dtD_Cam_det0_r1.yaml"]. eexists.
   conj; vm_compute; reflexivity.
@@ -172,12 +174,39 @@ Qed.
 Lemma zip_reingest_refuted_p :
   exists s x l c,
     s = run st0 [IngestZip [(1%N, "m1"); (2%N, "m2")] "zips/ab/z.zip" 7]
-    /\ reingest s x = true /\ snd (step s x) = Refused Conflict
-    /\ fget (fs s) l = Some c /\ fget (fs (fst (step s x))) l = None /\ referenced (fst (step s x)) l = true.
+    /\ reingest s x = true /\ snd (step_noichk s x) = Refused Conflict
+    /\ fget (fs s) l = Some c /\ fget (fs (fst (step_noichk s x))) l = None /\ referenced (fst (step_noichk s x)) l = true.
 Proof.
   eexists. exists (IngestZip [(1%N, "m1"); (2%N, "m2")] "zips/ab/z.zip" 7), ["zips"; "ab"; "z.zip"]. eexists.
   conj; vm_compute; reflexivity.
 Qed.
+
+(* with 2da36a1 (step): an ingest (copy / move / zip) that is not carried out changes NOTHING -- no file, no record, the
+   source of a move stays *)
+Lemma ingest_refused_changes_nothing_p : forall s m ids fr ext src,
+  snd (step s (Ingest m ids fr ext src)) <> Done -> fst (step s (Ingest m ids fr ext src)) = s.
+Proof.
+  intros s m ids fr ext src H. unfold step, step_v in *.
+  destruct (held_any s ids) eqn:Hh; destruct (fget (fs s) src) as [c|] eqn:Es; cbn [andb] in *;
+    try reflexivity; destruct fr as [p| |]; try reflexivity; try rewrite Es in *; try reflexivity.
+  destruct (refuse_location true p); [reflexivity|]. cbn [snd] in H. exfalso. apply H. reflexivity.
+Qed.
+
+Lemma zip_refused_changes_nothing_p : forall s members z c,
+  snd (step s (IngestZip members z c)) <> Done -> fst (step s (IngestZip members z c)) = s.
+Proof.
+  intros s members z c H. unfold step, step_v in *.
+  destruct (held_any s (map fst members)); cbn [andb] in *; [reflexivity|].
+  cbn [snd] in H. exfalso. apply H. reflexivity.
+Qed.
+
+Lemma reingest_refused_now_p :
+  let s := run st0 [Ingest Copy [1%N] (fmt "r1") ".yaml" stage0] in
+  let z := run st0 [IngestZip [(1%N, "m1"); (2%N, "m2")] "zips/ab/z.zip" 7] in
+    step s (Ingest Copy [1%N] (fmt "r1") ".yaml" stage0) = (s, Refused Conflict)
+    /\ step s (Ingest Move [1%N] (fmt "r1") ".yaml" stage0) = (s, Refused Conflict)
+    /\ step z (IngestZip [(1%N, "m1"); (2%N, "m2")] "zips/ab/z.zip" 7) = (z, Refused Conflict).
+Proof. vm_compute. repeat split; reflexivity. Qed.
 
 (* ---- the keep-set must be the UNION of the bridge's preserved set and the fragment recount ---------------------- *)
 (* variant of emptyTrash in which the recount REPLACES the preserved set whenever a trashed path has a fragment *)
